@@ -108,24 +108,31 @@ fn fresh(env: &HashMap<String, Vec<u8>>, r: &mut Rng) -> String {
     }
 }
 
-/// T1: local churn in one process — bind, share through tuples, project, shadow, drop.
-fn t_local(r: &mut Rng) -> Program {
+/// statements of a local churn (bind, share through tuples, project, shadow, drop) + the names and
+/// values of a few bindings to return
+fn local_body(r: &mut Rng) -> (Vec<String>, Vec<String>, Vec<HV>) {
     let mut env: HashMap<String, Vec<u8>> = HashMap::new();
     let mut stmts = vec![];
     let n = 2 + r.usize(6);
     for _ in 0..n {
         let e = gen_be(r, &env, 0);
         let val = e.eval(&env);
-        match r.below(4) {
-            0 if !env.is_empty() => {
-                // through a tuple and back: t = [e, x], v = t.0
+        match r.below(5) {
+            0 | 4 if !env.is_empty() => {
+                // through a tuple and back: t = [e, x], v = t.0  (or the second field)
                 let keys: Vec<String> = { let mut k: Vec<String> = env.keys().cloned().collect(); k.sort(); k };
                 let other = r.pick(&keys).clone();
                 let t = format!("t{}", stmts.len());
                 let v = fresh(&env, r);
                 stmts.push(format!("{t} = [{}, {other}]", e.src()));
-                stmts.push(format!("{v} = {t}.0"));
-                env.insert(v, val);
+                if r.chance(1, 2) {
+                    stmts.push(format!("{v} = {t}.0"));
+                    env.insert(v, val);
+                } else {
+                    stmts.push(format!("{v} = {t}.1"));
+                    let ov = env[&other].clone();
+                    env.insert(v, ov);
+                }
             }
             1 if !env.is_empty() => {
                 // shadow an existing binding
@@ -150,8 +157,51 @@ fn t_local(r: &mut Rng) -> Program {
         outv.push(HV::Bin(env[&v].clone()));
         outs.push(v);
     }
+    (stmts, outs, outv)
+}
+
+/// T1: local churn in the REPL process.
+fn t_local(r: &mut Rng) -> Program {
+    let (mut stmts, outs, outv) = local_body(r);
     stmts.push(format!("[{}]", outs.join(", ")));
     Program { family: "local", lines: vec![stmts.join(", ")], expected: vec![Some(HV::Tup(outv).canon())], confluent: true }
+}
+
+/// T1b: the same churn inside a spawned (non-persistent) process: its locals are released when it
+/// completes, so a count leaked by any value movement inside becomes visible.
+fn t_worker_local(r: &mut Rng) -> Program {
+    let (stmts, outs, outv) = local_body(r);
+    let body = format!("{}, [{}]", stmts.join(", "), outs.join(", "));
+    let lines = vec![format!("p = @{{ {body} }}, !p"), "q = @{ 5 }, !q".to_string()];
+    Program { family: "worker-local", lines, expected: vec![Some(HV::Tup(outv).canon()), Some("i5".into())], confluent: true }
+}
+
+/// T9: tail calls that carry binaries — a named tail call out of a frame whose locals hold heap
+/// binaries, and a self tail-call loop that builds a binary.
+fn t_tail(r: &mut Rng) -> Program {
+    let k1 = lit(r);
+    let k2 = lit(r);
+    let k3 = lit(r);
+    let x = lit(r);
+    let y = lit(r);
+    let n = 1 + r.usize(5);
+    let src = format!(
+        "g = #'bin {{ =m, [m, {}] __binary_concat__ }}, f = #'bin {{ =m, t = [m, {}] __binary_concat__, u = [t, t], u.0 ^g }}, loop = #['int, 'bin] {{ | =[0, acc] => acc | =[n, acc] => w = [acc, {}] __binary_concat__, [[n, 1] __integer_subtract__, w] ^ }}, p = @{{ [{} f, [{n}, {}] loop] }}, !p",
+        hexlit(&k2), hexlit(&k1), hexlit(&k3), hexlit(&x), hexlit(&y)
+    );
+    let mut a = x.clone();
+    a.extend(k1);
+    a.extend(k2);
+    let mut b = y.clone();
+    for _ in 0..n {
+        b.extend(k3.clone());
+    }
+    Program {
+        family: "tail-calls",
+        lines: vec![src, "q = @{ 5 }, !q".to_string()],
+        expected: vec![Some(HV::Tup(vec![HV::Bin(a), HV::Bin(b)]).canon()), Some("i5".into())],
+        confluent: true,
+    }
 }
 
 /// T2: spawn with captures (each capture a different heap binary) and await the result.
@@ -276,7 +326,7 @@ fn t_repl(r: &mut Rng) -> Program {
     let n = 3 + r.usize(6);
     let mut have_proc = false;
     for _ in 0..n {
-        match r.below(6) {
+        match r.below(7) {
             0 | 1 => {
                 let e = gen_be(r, &env, 0);
                 let v = fresh(&env, r);
@@ -321,6 +371,20 @@ fn t_repl(r: &mut Rng) -> Program {
                     expected.push(Some("i1".to_string()));
                 }
                 have_proc = true;
+            }
+            5 if !env.is_empty() => {
+                // a tuple binding, a projection, then the tuple binding is shadowed (dropped at
+                // the next compaction)
+                let keys: Vec<String> = { let mut k: Vec<String> = env.keys().cloned().collect(); k.sort(); k };
+                let a = r.pick(&keys).clone();
+                let e = gen_be(r, &env, 0);
+                let val = e.eval(&env);
+                lines.push(format!("tt = [{}, {a}]", e.src()));
+                expected.push(Some(OK.to_string()));
+                lines.push("tt.0".to_string());
+                expected.push(Some(HV::Bin(val).canon()));
+                lines.push("tt = 0".to_string());
+                expected.push(Some(OK.to_string()));
             }
             _ => {
                 if env.is_empty() {
@@ -388,14 +452,16 @@ fn t_late_failure(r: &mut Rng) -> Program {
 }
 
 pub fn generate(r: &mut Rng) -> Program {
-    match r.below(20) {
-        0..=4 => t_local(r),
-        5..=8 => t_spawn(r),
-        9..=10 => t_pipeline(r),
-        11..=12 => t_filter(r),
-        13 => t_priority(r),
-        14..=16 => t_repl(r),
-        17..=18 => t_fanin(r),
+    match r.below(24) {
+        0..=2 => t_local(r),
+        3..=6 => t_worker_local(r),
+        7..=9 => t_spawn(r),
+        10..=11 => t_pipeline(r),
+        12..=13 => t_filter(r),
+        14 => t_priority(r),
+        15..=18 => t_repl(r),
+        19..=20 => t_fanin(r),
+        21..=22 => t_tail(r),
         _ => t_late_failure(r),
     }
 }
